@@ -7,5 +7,5 @@ CONSTANTS
   AgentAdd = "after"
 INVARIANT C18_Order
 INVARIANT C18_Prefix
-INVARIANT C18_ModelArg
-INVARIANT C18_Contents
+\* (only the properties this control must refute are listed: with several violated properties TLC's workers
+\*  would race for which one is reported first; the full list is checked on the right algorithm by the main cfg)
